@@ -26,7 +26,15 @@ TraceEnum ==
   /\ IsEv("enumprobe")
   /\ LET e == Trace[l] IN
      Rec(Cl((e.parser_accepts /\ e.builds) => e.schema_valid, "C17.built_implies_schema_valid"),
-         IF ~(e.parser_accepts /\ e.builds) /\ e.setting # "generated-config" THEN {"DOC.documented_value_not_built:" \o e.setting} ELSE {}, {})
+         IF ~(e.parser_accepts /\ e.builds) /\ e.setting # "generated-config" /\ ~e.cross THEN {"DOC.documented_value_not_built:" \o e.setting} ELSE {}, {})
+  /\ UNCHANGED <<cid, ncases>>
+(* Schema!PathsAgree, the other direction, on a real document: a key the schema does not allow is rejected by the strict *)
+(* parser through every entry point (a reader, a file path, the command-line tool)                                        *)
+TraceStrict ==
+  /\ IsEv("strictprobe")
+  /\ LET e == Trace[l] IN
+     Rec(Cl(~e.schema_valid => (~e.accepted_reader /\ ~e.accepted_file /\ ~e.accepted_cli), "C17.schema_rejected_key_rejected_by_parser"),
+         {}, IF e.schema_valid THEN {"unknown_key_probe_validates"} ELSE {})
   /\ UNCHANGED <<cid, ncases>>
 TraceLeaf ==
   /\ IsEv("leafprobe")
@@ -37,7 +45,7 @@ TraceEof ==
   /\ PrintT(<<"VIOLSET", ToJson(viol)>>) /\ PrintT(<<"DRIFTSET", ToJson(drift)>>) /\ PrintT(<<"MERRSET", ToJson(merr)>>)
   /\ PrintT(<<"NCASES", ncases>>) /\ TLCSet(1, l)
   /\ UNCHANGED <<cid, viol, drift, merr, ncases>>
-TraceNext == TraceCase \/ TraceEnd \/ TraceFile \/ TraceSchemaParse \/ TraceKey \/ TraceEnum \/ TraceLeaf \/ TraceEof
+TraceNext == TraceCase \/ TraceEnd \/ TraceFile \/ TraceSchemaParse \/ TraceKey \/ TraceEnum \/ TraceStrict \/ TraceLeaf \/ TraceEof
 TraceSpec == TraceInit /\ [][TraceNext]_vars
 HighWater == TLCSet(2, l)
 Accepted == TLCGet(1) = Len(Trace)
